@@ -191,11 +191,18 @@ tagspec(struct scope *s)
 		if (!et)
 			error(&tok.loc, "no type in enum type specifier");
 	}
+	if (!tag && tok.kind != TLBRACE)
+		error(&tok.loc, "expected identifier or '{' after '%s'", kind == TYPESTRUCT ? "struct" : kind == TYPEUNION ? "union" : "enum");
 	if (tag)
 		t = scopegettag(s, tag, tok.kind != TLBRACE && tok.kind != TSEMICOLON);
 	if (t) {
 		if (t->kind != kind)
 			error(&tok.loc, "redeclaration of tag '%s' with different kind", tag);
+		if (kind == TYPEENUM && et && t->base != et) {
+			if (t->base || !t->incomplete)
+				error(&tok.loc, "enum '%s' redeclared with different underlying type", tag);
+			t->base = et;
+		}
 	} else {
 		if (kind == TYPEENUM) {
 			t = mktype(kind, PROPSCALAR|PROPARITH|PROPREAL|PROPINT);
